@@ -14,6 +14,7 @@ Inductive cset :=
 | CUnion (a b : cset).      (* [...] *)
 
 Inductive re :=
+| RNone                    (* the empty language; never generated, needed for derivatives *)
 | REps
 | RSet (s : cset)
 | RCat (a b : re)
